@@ -97,7 +97,7 @@ func newContractSet() *ContractSet {
 	return &ContractSet{Funcs: map[string]*Contract{}, Preds: map[string]*Pred{}, Ghosts: map[string]string{}, TypeInvs: map[string]*TypeInv{}, Immutable: map[string]*TypeInv{}}
 }
 
-var clauseRe = regexp.MustCompile(`^(immutable|typeinv|dispatch|step|stable|preserves|requires|ensures|invariant|decreases|atcall|track|modifies|opt|loop|axiom|pred|ghost|func|lemma)\b(\[[A-Za-z0-9, ]*\])?\s*(.*)$`)
+var clauseRe = regexp.MustCompile(`^(immutable|typeinv|dispatch|step|stable|preserves|requires|ensures|invariant|decreases|nobreak|atcall|track|modifies|opt|loop|axiom|pred|ghost|func|lemma)\b(\[[A-Za-z0-9, ]*\])?\s*(.*)$`)
 
 func (cs *ContractSet) parseFile(path string, trusted bool) error {
 	data, err := os.ReadFile(path)
@@ -315,7 +315,7 @@ func (cs *ContractSet) parseFile(path string, trusted bool) error {
 				return fmt.Errorf("%s:%d: bad loop clause", path, s.line)
 			}
 			m2 := clauseRe.FindStringSubmatch(strings.TrimSpace(f[1]))
-			if m2 == nil || (m2[1] != "invariant" && m2[1] != "decreases") {
+			if m2 == nil || (m2[1] != "invariant" && m2[1] != "decreases" && m2[1] != "nobreak") {
 				return fmt.Errorf("%s:%d: bad loop clause", path, s.line)
 			}
 			if m2[2] != "" {
@@ -326,7 +326,11 @@ func (cs *ContractSet) parseFile(path string, trusted bool) error {
 					}
 				}
 			}
-			if m2[1] == "invariant" {
+			if m2[1] == "nobreak" {
+				// loop <n> nobreak[..]: the loop is left only through its own condition (range
+				// exhausted, condition false) or by returning; no `break` (or goto out) is reachable
+				cur.Loops = append(cur.Loops, &Clause{Kind: "nobreak", Props: props, Src: "loop is left only by exhaustion or return", Ordinal: n, File: path, Line: s.line})
+			} else if m2[1] == "invariant" {
 				c, err := mk("invariant", strings.TrimSpace(m2[3]))
 				if err != nil {
 					return err
